@@ -10,6 +10,8 @@ IMPORTS = ("From Coq Require Import List Ascii String NArith ZArith Bool.\n"
 THEOREMS = ["range_roundtrip", "ipv4_roundtrip", "cidr_roundtrip", "accepted_valid", "size_card",
             "contains_enumerate", "enumerate_terminates", "pool_roundtrip"]
 REFUTED = ["accepted_valid_refuted_wrap", "walk_refuted_wrap"]
+# plugin level: a rejected reload changes nothing (Props/C09p.v, proofs in Proofs/PluginAnswerP.v)
+PLUGIN_THEOREMS = ["rejected_reload_changes_nothing", "failed_list_changes_nothing"]
 
 DEPS = ["Strs", "Nets", "Pool", "NetsP", "PoolP", "CorrBase", "C20c", "C20"]
 MANIFEST = {
@@ -17,7 +19,7 @@ MANIFEST = {
             "accepted_valid, size_card, contains_enumerate, enumerate_terminates, pool_roundtrip) hold for ALL JSON trees, "
             "addresses and ranges; the model is tied to the working tree by running ~2400 (quick) generated + corpus cases "
             "through the real decoder/encoder/Contains/Size/ConfigurePool and through the model, and the theorems' predicates "
-            "are also evaluated as monitors on the implementation's own outputs",
+            "are also evaluated as monitors on the implementation's own outputs Plugin level (Props/C09p.v): rejected_reload_changes_nothing / failed_list_changes_nothing - a reload whose text is rejected, or whose List call fails, leaves the whole plugin world as it was.",
     "note": "trusted: Coq kernel (no axioms), Go harness + python printers, encoding/json's lexer (the model starts at the JSON "
             "tree), IPv4/ASCII/escape-free/duplicate-free domain; IPv6 text is only checked for no panic / no hang",
 }
@@ -459,7 +461,7 @@ def run(ctx):
     # plugin's reload path (configmap -> ensureIPAMConf -> decode -> ConfigurePool) with a configuration in force and pods
     # holding IPs; real FloatingIPPlugin vs Model/Plugin.v + monitors
     import plugincheck
-    plugincheck.run(ctx, "C20", [], [], plugincheck.mon_c20_plugin, nrandom=(0, 0), incarnations=False, fixed=False,
+    plugincheck.run(ctx, "C20", PLUGIN_THEOREMS, [], plugincheck.mon_c20_plugin, module="C09p", nrandom=(0, 0), incarnations=False, fixed=False,
                     extra_scenarios=plugincheck.rejected_reload_scenarios(ctx.rng, ctx) + plugincheck.reload_scenarios(ctx.rng, ctx))
 
 
